@@ -63,6 +63,19 @@ Theorem root_recoverable : forall ops s,
 Proof. exact StreamRoot.root_recoverable. Qed.
 Print Assumptions root_recoverable.
 
+(* combined: value() without override on any stream derived from dataset d runs exactly once, on d's executor, with
+   remove_empty of the stream's own dump and the title - unless the cleaner raises, and then nothing runs *)
+Theorem value_on_own_dataset : forall ops s title st' out,
+  forallb op_derived ops = true -> live (run ops) s ->
+  step (run ops) (ValueStart s None title) = (st', out) ->
+  (exists t ast, abs (heap_ (run ops)) (match nth_error (streams (run ops)) s with Some x => root x | None => 0 end) = Some t /\
+                 clean t = Ok ast /\
+                 log st' = log (run ops) ++ [(EDs (ds_spec ops s), Some ast, title)] /\
+                 out = OCall (length (calls (run ops)))) \/
+  (exists e, st' = run ops /\ out = OErr e /\ log st' = log (run ops)).
+Proof. exact StreamRoot.value_on_own_dataset. Qed.
+Print Assumptions value_on_own_dataset.
+
 (* the finder on any tree: no root or several roots are rejected, exactly one is found *)
 Theorem bad_roots_rejected : forall X (t : gtree X),
   (count_roots t = 0 -> find_root t = Err ENoRoot) /\
